@@ -12,7 +12,9 @@ use std::sync::mpsc;
 use std::time::{Duration, Instant};
 
 pub const VERIF_DIR: &str = "/verif";
-const RUN_WALL_LIMIT_S: u64 = 120;
+fn run_wall_limit_s() -> u64 {
+    std::env::var("VERIF_RUN_LIMIT_S").ok().and_then(|s| s.parse().ok()).unwrap_or(120)
+}
 
 #[derive(Serialize, Deserialize, Clone, Debug)]
 pub struct FoundViolation {
@@ -229,7 +231,7 @@ pub fn run_batch(check: &dyn Check, tier: Tier, seed: u64, nw: u64, total_runs: 
                         continue;
                     }
                     let (i, t) = last_start[w];
-                    if i != u64::MAX && t.elapsed() > Duration::from_secs(RUN_WALL_LIMIT_S) {
+                    if i != u64::MAX && t.elapsed() > Duration::from_secs(run_wall_limit_s()) {
                         // kill it; the reader's Eof is then handled like an abort, labelled "hang"
                         hung[w] = true;
                         if let Some(ch) = children[w].as_mut() {
@@ -272,10 +274,10 @@ pub fn exec_in_subprocess(check_id: &str, plan: &Value) -> Result<Option<Violati
         match ch.try_wait() {
             Ok(Some(_)) => break,
             Ok(None) => {
-                if t0.elapsed() > Duration::from_secs(RUN_WALL_LIMIT_S) {
+                if t0.elapsed() > Duration::from_secs(run_wall_limit_s()) {
                     let _ = ch.kill();
                     let _ = ch.wait();
-                    return Ok(Some(Violation::new("hang", "hang", format!("plan did not finish within {RUN_WALL_LIMIT_S} s"))));
+                    return Ok(Some(Violation::new("hang", "hang", format!("plan did not finish within {} s", run_wall_limit_s()))));
                 }
                 std::thread::sleep(Duration::from_millis(2));
             }
